@@ -37,6 +37,7 @@ type SpecFun struct {
 	Uninter bool
 	Decr    *Expr
 	Where   string
+	CexBody *Expr // concrete definition of an uninterpreted function, used only when searching/evaluating counterexamples
 }
 
 type Clause struct {
@@ -65,7 +66,12 @@ type Contract struct {
 		Name string
 		E    *Expr
 	}
-	Where string
+	Witness []struct {
+		Name string
+		E    *Expr
+	}
+	Replay string
+	Where  string
 	Props map[string]bool // property tags mentioned
 	SafetyProps map[string]bool // properties owning the implicit safety/termination obligations
 }
@@ -188,6 +194,13 @@ func (sp *Specs) LoadFile(path string) error {
 			}
 			f := &SpecFun{Name: m[2], Params: ps, Ret: m[4], Where: where, Rec: m[1] == "rec", Uninter: m[1] == "uninterp"}
 			rest := strings.TrimSpace(flat[len(m[0]):])
+			if f.Uninter && strings.HasPrefix(rest, ":=") {
+				cb, err := ParseExpr(rest[2:], where)
+				if err != nil {
+					return err
+				}
+				f.CexBody = cb
+			}
 			if !f.Uninter {
 				if strings.HasPrefix(rest, "decreases ") {
 					i := strings.Index(rest, "=")
@@ -287,7 +300,7 @@ func findDefEq(s string) int {
 func parseContract(key string, clauses []string, where string) (*Contract, error) {
 	c := &Contract{Key: key, LoopInv: map[int][]*Clause{}, LoopDecr: map[int][]*Expr{}, Where: where, Props: map[string]bool{}, SafetyProps: map[string]bool{}}
 	// clauses may themselves have been continued: a clause starts with a keyword
-	kw := regexp.MustCompile(`^(requires|ensures|modifies|allocates|pure|trusted|decreases|loop|maypanic|let|safety|formals|results)\b`)
+	kw := regexp.MustCompile(`^(requires|ensures|modifies|allocates|pure|trusted|decreases|loop|maypanic|let|safety|formals|results|witness|replay)\b`)
 	var merged []string
 	for _, l := range clauses {
 		l = strings.TrimSpace(l)
@@ -366,6 +379,18 @@ func parseContract(key string, clauses []string, where string) (*Contract, error
 				Name string
 				E    *Expr
 			}{strings.TrimSpace(kv[0]), e})
+		case "witness":
+			kv := strings.SplitN(rest, "=", 2)
+			e, err := ParseExpr(kv[1], w)
+			if err != nil {
+				return nil, err
+			}
+			c.Witness = append(c.Witness, struct {
+				Name string
+				E    *Expr
+			}{strings.TrimSpace(kv[0]), e})
+		case "replay":
+			c.Replay = rest
 		case "loop":
 			f := strings.SplitN(rest, " ", 3)
 			if len(f) < 3 {
